@@ -6,7 +6,17 @@ CLAIMED = {
  "C01": dict(cat="exploration", tech="runtime monitor on load()/verify_role outcomes; oracle = ground truth by construction over generated signature lists (exhaustive small scope + seeded random)",
     text="Forged signature lists (valid / duplicate-key / corrupted / other-content / other-role / unknown / listed-but-missing-key) at all 8 verification sites are pushed through the real RepositoryLoader::load and through direct Root/Delegations::verify_role calls; the oracle knows by construction how many distinct authorised keys validly signed. Exhaustive for lists up to length 2/3 (load level) and 4/5 (API level), sampled beyond; held on the executions listed in the evidence, nothing is proved.",
     note="Trusted: aws-lc-rs primitives; harness reference canonicaliser; bounds n,t<=4, list length<=5.", ref="§5 C01"),
+ "C02": dict(cat="exploration", tech="runtime monitor on load() outcome, trusted root version and transport fetch log; oracle = reference chain walk over generator ground truth (set of acceptable outcomes)",
+    text="Seeded random root chains (shipped 1..2, 0..4 hops, rotation kinds per hop for root and online roles, one optional broken hop of 9 kinds, top-level metadata signed by final or revoked epoch keys, non-self-verifying shipped roots) are served to the real client; an independent reference walk computes which final roots are acceptable; fetch-log rules check stop-at-first-missing. Held on the executions in the evidence.",
+    note="Trusted: harness forge/refcanon; outcome sets where the statement leaves freedom (broken hop may fail or stop at last good root; skipping hop may be followed or refused).", ref="§5 C02"),
+ "C03": dict(cat="exploration", tech="offline history checker over recorded update-cycle histories sharing one datastore (pairwise rollback rule with key-change exemption + forward-never-refused rule)",
+    text="All 81^2 two-cycle histories (both consistent-snapshot settings), lowering templates, all 81^3 three-cycle histories (thorough) and seeded 2..4-cycle histories with root publications are run against the real client over one datastore directory; the recorded (result, versions, trusted root) history is judged offline. Known finding: rollback of timestamp/snapshot accepted when the shipped root predates an online-key rotation (trusted root not persisted).",
+    note="Exemption read permissively; versions 1..3; <=4 cycles.", ref="§5 C03"),
+ "C14": dict(cat="exploration", tech="runtime monitor over two-cycle histories with root publications in between; oracle by construction (rotation kind x version relation)",
+    text="Cycle 1 stores timestamp/snapshot at V in {3,2^31,2^63}; newer roots rotate timestamp/snapshot/both/neither keys (disjoint, add, remove, replace) over 1..3 hops; cycle 2 restarts at low versions. Rotated => must load; unrotated => must be refused; unrotated targets keys keep protecting targets.",
+    note="Rotate-and-rotate-back and threshold-only changes are outside C14's quantifier.", ref="§5 C14"),
 }
+
 
 PENDING_REASON = "monitor not built yet in this session (design in DESIGN.md §5); will be claimed once its check exists and is silent on the unchanged tree"
 
